@@ -1,6 +1,179 @@
-(* placeholder while the model is being tied; replaced below *)
-From Coq Require Import NArith List Bool.
-From BV Require Import Lib.Bytes Model.GitCommit.
-Theorem C34_placeholder : forall c, norm (norm c) = norm c.
-Proof. intros c; unfold norm; simpl. destruct (c_gpgsig c) as [[|x l]|]; reflexivity. Qed.
-Print Assumptions C34_placeholder.
+(* Properties/C34.v -- Importing then exporting a git commit reproduces it byte for byte.
+   Statements only; proofs are in Theory/GitCommit.v, the model in Model/GitCommit.v.
+
+   commit      = dulwich.objects.Commit as a record of byte fields; [serialise] is
+                 Commit._serialize (None = the serialiser raises).
+   import_commit / export_commit = BzrGitMappingv1.import_commit(strict=True) /
+                 export_commit(lossy=True) (what breezy itself passes for the default mapping).
+   env         = Python's codec registry: encoding name -> UTF-8 | Latin-1 | other | unknown.
+   accepted    = import_commit does not raise.
+   rt_guard    = executable, field-local guard: parents are 40 bytes and timezones whole minutes
+                 (what dulwich requires to serialise), no encoding header or an ASCII one naming
+                 UTF-8 (then the texts are valid UTF-8) or Latin-1 and not "false", both person
+                 identifiers are fixed points of fix_person_identifier and not cut by the
+                 several-authors rule, a message is present, every extra header is HG:rename-source
+                 or a known HG:extra whose value contains no str.splitlines() boundary.
+   norm        = the same commit with a falsy gpgsig (b"") turned into None (not serialised). *)
+From Coq Require Import ZArith NArith List Bool String.
+From BV Require Import Lib.Bytes Model.GitCommit Theory.GitCommit.
+Import ListNotations.
+
+(* FULL STATEMENT (false, see the _refuted theorems):
+     forall env c, accepted env c = true ->
+       exists r, import_commit env c = Ok r /\ export_commit env r (c_tree c) = Ok (norm c). *)
+
+(* field by field *)
+Theorem C34_export_import_id_guarded :
+  forall env c, rt_guard env c = true ->
+    exists r, import_commit env c = Ok r /\ export_commit env r (c_tree c) = Ok (norm c).
+Proof. exact export_import_id. Qed.
+Print Assumptions C34_export_import_id_guarded.
+
+Theorem C34_norm_same_bytes : forall c, serialise (norm c) = serialise c.
+Proof. exact serialise_norm. Qed.
+Print Assumptions C34_norm_same_bytes.
+
+(* identical bytes, hence identical SHA-1 *)
+Theorem C34_bytes_identical_guarded :
+  forall env c, rt_guard env c = true ->
+    exists r c' s, import_commit env c = Ok r /\ export_commit env r (c_tree c) = Ok c'
+                   /\ serialise c = Some s /\ serialise c' = Some s.
+Proof. exact export_import_bytes. Qed.
+Print Assumptions C34_bytes_identical_guarded.
+
+(* the guard is not vacuous: every ordinary "name <email>" identifier passes its identifier
+   clause, and a commit using every optional feature satisfies all of it *)
+Theorem C34_ident_canonical :
+  forall u e, memb LT u = false -> memb GT u = false -> memb LT e = false -> memb GT e = false ->
+    ident_ok (u ++ bs " <" ++ e ++ [GT]) = true.
+Proof. exact ident_ok_canonical. Qed.
+Print Assumptions C34_ident_canonical.
+
+Theorem C34_fix_person_canonical :
+  forall u e, memb LT u = false -> memb LT e = false -> memb GT e = false ->
+    fix_person (u ++ bs " <" ++ e ++ [GT]) = Ok (u ++ bs " <" ++ e ++ [GT]).
+Proof. exact fix_person_canonical. Qed.
+Print Assumptions C34_fix_person_canonical.
+
+Example C34_guard_satisfiable : rt_guard ex_env ex_commit = true.
+Proof. exact ex_commit_guard. Qed.
+Example C34_guard_satisfiable_implicit_latin1 :
+  rt_guard (fun _ => CUnknown) (wit (bs "A <a>") (bs "C <c>") None [] (Some [233%N])) = true.
+Proof. exact ex_commit_implicit_latin1_guard. Qed.
+
+(* ---- commits the mapping accepts but does not reproduce (each replayed on the real code) ---- *)
+(* not_roundtrip env c = true  ->  accepted env c = true and export(import c) raises or
+   serialises to different bytes *)
+Theorem C34_not_roundtrip_meaning :
+  forall env c, not_roundtrip env c = true ->
+    accepted env c = true
+    /\ forall r c', import_commit env c = Ok r -> export_commit env r (c_tree c) = Ok c' ->
+                    serialise c' <> serialise c.
+Proof. exact not_roundtrip_sound. Qed.
+Print Assumptions C34_not_roundtrip_meaning.
+
+Theorem C34_export_import_id_refuted :
+  exists c, forall env, accepted env c = true /\ not_roundtrip env c = true.
+Proof.
+  exists w_ident_nospace. intros env. split; [|apply ident_nospace_refuted].
+  apply not_roundtrip_sound. apply ident_nospace_refuted.
+Qed.
+Print Assumptions C34_export_import_id_refuted.
+
+(* a commit without message: export raises AttributeError *)
+Theorem C34_missing_message_refuted :
+  forall env, not_roundtrip env w_missing_message = true
+              /\ export_error env w_missing_message = Some "AttributeError"%string.
+Proof. exact missing_message_refuted. Qed.
+Print Assumptions C34_missing_message_refuted.
+
+(* "encoding false": import falls back to utf-8/latin1, export looks the codec "false" up *)
+Theorem C34_encoding_false_refuted :
+  forall env, env (bs "false") = CUnknown ->
+    not_roundtrip env w_encoding_false = true
+    /\ export_error env w_encoding_false = Some "LookupError"%string.
+Proof. exact encoding_false_refuted. Qed.
+Print Assumptions C34_encoding_false_refuted.
+
+(* author "A<a>" comes back as "A <a>" *)
+Theorem C34_ident_rewritten_refuted :
+  forall env, not_roundtrip env w_ident_nospace = true /\ export_error env w_ident_nospace = None.
+Proof. exact ident_nospace_refuted. Qed.
+Print Assumptions C34_ident_rewritten_refuted.
+
+(* author "A <a>, B <b>" comes back as "A <a>" *)
+Theorem C34_two_authors_refuted :
+  forall env, not_roundtrip env w_two_authors = true /\ export_error env w_two_authors = None.
+Proof. exact two_authors_refuted. Qed.
+Print Assumptions C34_two_authors_refuted.
+
+(* author "Joe>": export raises ValueError *)
+Theorem C34_ident_without_lt_refuted :
+  forall env, not_roundtrip env w_ident_no_lt = true
+              /\ export_error env w_ident_no_lt = Some "ValueError"%string.
+Proof. exact ident_no_lt_refuted. Qed.
+Print Assumptions C34_ident_without_lt_refuted.
+
+(* HG:extra value containing "\r": git-extra is re-split with str.splitlines() *)
+Theorem C34_extra_linebreak_refuted :
+  forall env, not_roundtrip env w_extra_cr = true
+              /\ export_error env w_extra_cr = Some "ValueError"%string.
+Proof. exact extra_cr_refuted. Qed.
+Print Assumptions C34_extra_linebreak_refuted.
+
+(* ---- commits the mapping rejects ---- *)
+Theorem C34_unknown_extra_rejected :
+  forall env c, existsb (fun kv => negb (extra_key_known kv)) (c_extra c) = true ->
+    accepted env c = false.
+Proof. exact unknown_extra_rejected. Qed.
+Print Assumptions C34_unknown_extra_rejected.
+
+Theorem C34_unknown_encoding_rejected :
+  forall env c e, c_encoding c = Some e -> bytes_eqb e (bs "false") = false ->
+    lookup env e = CUnknown -> c_committer c <> [] -> accepted env c = false.
+Proof. exact unknown_encoding_rejected. Qed.
+Print Assumptions C34_unknown_encoding_rejected.
+
+Theorem C34_undecodable_utf8_rejected :
+  forall env c e, c_encoding c = Some e -> bytes_eqb e (bs "false") = false ->
+    lookup env e = CUtf8 -> texts_valid c = false -> accepted env c = false.
+Proof. exact undecodable_utf8_rejected. Qed.
+Print Assumptions C34_undecodable_utf8_rejected.
+
+(* ---- revision ids ---- *)
+(* the revision id is a function of the commit's bytes alone ... *)
+Theorem C34_revid_stable :
+  forall (sha : bytes -> bytes) c1 c2,
+    serialise c1 = serialise c2 -> revid_of sha c1 = revid_of sha c2.
+Proof. exact revid_stable. Qed.
+Print Assumptions C34_revid_stable.
+
+(* ... the exported commit has the same one, and it maps back to the SHA *)
+Theorem C34_revid_roundtrip_guarded :
+  forall (sha : bytes -> bytes) env c, rt_guard env c = true ->
+    exists r c' id, import_commit env c = Ok r /\ export_commit env r (c_tree c) = Ok c'
+                    /\ revid_of sha c = Some id /\ revid_of sha c' = Some id
+                    /\ parent_lookup id
+                       = Ok (sha match serialise c with Some s => s | None => [] end).
+Proof. exact revid_roundtrip. Qed.
+Print Assumptions C34_revid_roundtrip_guarded.
+
+Theorem C34_revid_injective :
+  forall a b, revid_foreign_to_bzr a = revid_foreign_to_bzr b -> a = b.
+Proof. exact revid_injective. Qed.
+Print Assumptions C34_revid_injective.
+
+(* ---- partial: codecs other than UTF-8 / Latin-1 are outside the model
+        (the correspondence run and the byte-exact oracle cover them) ---- *)
+Theorem C34_other_codecs_partial :
+  forall env c e, c_encoding c = Some e -> is_ascii e = true -> bytes_eqb e (bs "false") = false ->
+    lookup env e = COther -> import_commit env c = Unmodelled.
+Proof. exact other_codec_unmodelled. Qed.
+Print Assumptions C34_other_codecs_partial.
+
+(* ---- roundtrip.py: a commit message without the "\n--BZR--\n" marker goes through
+        extract_bzr_metadata unchanged and yields no metadata ---- *)
+Theorem C34_no_marker_transparent :
+  forall m, containsb BZR_MARK m = false -> extract_msg m = (m, false).
+Proof. exact no_marker_transparent. Qed.
+Print Assumptions C34_no_marker_transparent.
